@@ -474,6 +474,11 @@ def run(ctx, res):
         if m is not None and m[:1] != ["unsupported"]:
             m_txt, m_back, m_canon, g_rt, g_rfc, m_gram, m_txt2 = m
             in_guard, in_rfc = bool(g_rt), bool(g_rfc)
+            # the theorem's domain (the extracted guard) must contain every rule generated as in-domain
+            if kind in ("corpus", "freq", "weekdaynum", "random-rfc") or kind.startswith("single-part"):
+                res.corr("guard-covers-generated-domain", inp, [1, int(kind != "single-part:BYWEEKDAY")], [g_rt, g_rfc])
+                if g_rfc:
+                    res.corr("recur_grammar-accepts-in-domain", inp, 1, m_gram)
             ok = res.corr("vRecur.to_ical", inp, txt, m_txt)
             if ok and m_txt[:1] != ["unsupported"] and not isinstance(txt, list):
                 res.corr("vRecur.from_ical.to_ical", inp, back, m_back)
